@@ -29,6 +29,7 @@ PROP = dict(
                dict(fn=MS + "replace_last", rt_skip=True),
                dict(fn=MS + "insert_one", contract_key=MS + "insert_one:new", rt_skip=True),
                dict(fn="aw_datastore.storages.abstract.AbstractStorage.insert_many", contract_key="aw_datastore.storages.abstract.AbstractStorage.insert_many" + ":memory", runs_as=MS + "insert_many", rt_skip=True),
+               dict(fn="aw_datastore.storages.abstract.AbstractStorage.insert_many", contract_key="aw_datastore.storages.abstract.AbstractStorage.insert_many" + ":memory-upsert", runs_as=MS + "insert_many", rt_skip=True),
                dict(fn=MS + "insert_one", contract_key=MS + "insert_one:existing", rt_skip=True),
                dict(fn=MS + "_get_event", rt_skip=True),
                dict(fn=MS + "get_event", rt_skip=True),
